@@ -3,6 +3,7 @@ import Cardutil.Lemmas.IsoPds
 import Cardutil.Gen.Config
 import Cardutil.Gen.Codecs
 import Cardutil.Gen.PyTables
+import Cardutil.Lemmas.Time
 /-
   C01 — ISO8583 round trip: decoding an encoded message returns every value unchanged.
 
@@ -297,6 +298,38 @@ theorem packaged_all_carriers : ∀ b f, Gen.bitConfig.get b = some f → f.proc
     have := List.all_eq_true.mp hall e hmem
     rw [hget, hproc, hkey] at this
     simpa using this
+
+/-! ### date-times: the "parses back" hypothesis discharged -/
+
+/-- A date-time element is well formed as soon as the date-time is EXPRESSIBLE in the configured format (every
+    directive's value in range — two-digit years inside the 1969..2068 window, four-digit years 1000..9999 —, the fields
+    the format does not mention at strptime's defaults, a real calendar date), its rendering has the element's width
+    and is encodable: `strptime(format(d, fmt), fmt) = d` is a theorem about the model of Py/Time.lean
+    (`strptime_strftime`, Lemmas/Time.lean), no longer a hypothesis. -/
+theorem C01_date_wellformed {env : Env} (henv : EnvOK env) (bit : Nat) (f : FieldCfg) (d : DateTime) (bs : Bytes)
+    (hproc : f.proc = .none) (hty : f.pytype = .datetime) (hfix : f.prefixLen = 0)
+    (hexp : Expressible f.dateFmt d)
+    (hlen : (strftime f.dateFmt d).length = f.length) (hne : strftime f.dateFmt d ≠ [])
+    (henc : env.codec.encode (strftime f.dateFmt d) = some bs) :
+    WFField env bit f (.dt d) (.dt d) [] :=
+  WFField.date d bs hproc hty hfix hlen hne henc (strptime_strftime henv.sane f.dateFmt d hexp)
+
+/-- the round trip of the rendering itself, for the measured character classes -/
+theorem C01_date_text_roundtrip {env : Env} (henv : EnvOK env) (fmt : List Directive) (d : DateTime)
+    (hexp : Expressible fmt d) : strptime env.classes fmt (strftime fmt d) = some d :=
+  strptime_strftime henv.sane fmt d hexp
+
+/-- the hypotheses are satisfiable: the packaged DE12 format and a leap day at the last second -/
+example : Expressible [.y, .m, .d, .H, .M, .S] ⟨2024, 2, 29, 23, 59, 59⟩ :=
+  ⟨by intro D hD; simp at hD; rcases hD with rfl | rfl | rfl | rfl | rfl | rfl <;> simp [DirOK],
+   by simp [Pending], by decide⟩
+
+/-- … a format without a year reads in 1900 -/
+example : Expressible [.m, .d] ⟨1900, 12, 31, 0, 0, 0⟩ :=
+  ⟨by intro D hD; simp at hD; rcases hD with rfl | rfl <;> simp [DirOK], by simp [Pending], by decide⟩
+
+-- … and outside the two-digit-year window the round trip genuinely fails: 2069 reads back as 1969 (evaluated test)
+#guard strptime asciiClasses [.y, .m, .d] (strftime [.y, .m, .d] ⟨2069, 1, 1, 0, 0, 0⟩) == some ⟨1969, 1, 1, 0, 0, 0⟩
 
 -- sanity tests (evaluated): the documentation's example in both bitmap renderings, and DE4 = 0
 #guard
